@@ -98,7 +98,11 @@ class C12(vlib.HistoryProp):
             for _ in range(cnt):
                 cases.append(self.walk(rng, no, nr, ln, "w%d" % k))
                 k += 1
-        return cases
+        # the same histories on the second object layout of the harness (AbstractClass as a
+        # non-first base: ids starting with 'L'); the model does not depend on the layout
+        step = 1 if tier != "quick" else 4
+        second = [Case("L" + c.id, c.header, c.ops, c.origin + "-layout2") for c in cases[::step]]
+        return cases + second
 
     # ---- canonicalisation ------------------------------------------------------------
     def canon_model(self, lines):
